@@ -132,6 +132,16 @@ def run_lib_cases(cases, regime, cnt, viols, hashes, samples, fx="bundled"):
     obs = probe().run(cases)
     for c, o in zip(cases, obs):
         cnt["library_calls"] += 1
+        if "hang" in o:
+            # bounded progress: no answer within the watchdog. A loaded machine can be slow, so the call is repeated
+            # twice on a fresh harness process; only three silences in a row count (otherwise inconclusive)
+            again = [probe().run([c])[0] for _ in range(2)]
+            if all("hang" in a for a in again):
+                viols.append({"clause": "does-not-terminate", "signature": f"library-call-does-not-terminate:{regime}",
+                              "detail": f"no result or error within {o['hang']['seconds']} s, three times", "case": c})
+            else:
+                cnt["slow_calls(inconclusive)"] += 1
+            continue
         if "panic" in o:
             reg = regime
             if regime in ("soup", "convert"):
